@@ -4,7 +4,7 @@
 # 2. applies the patch to /repo, runs the given checks (default: the property's own), reverts /repo
 # 3. stores patch/demo/meta under /verif/seeded/<name>/
 set -u
-PROP=$1; NAME=$2; WT=$3; shift 3
+PROP=$1; NAME=$2; WT=$(realpath $3); shift 3
 CHECKS=${@:-$PROP}
 OUT=/verif/seeded/$NAME
 mkdir -p $OUT
